@@ -6,7 +6,9 @@ else the page holds: DATA_PAGE_V2 (page type 3: NOT_IMPLEMENTED, fix F27), a val
 {0, 1, 2, 5, 6, 7} (UNSUPPORTED_CODEC, or an earlier error), a dictionary page for a BOOLEAN column
 (NOT_IMPLEMENTED, fix F54, or an earlier error).  In every case `load_next_page` returns an error — no
 page is installed, so the column reader hands out nothing of the offending page (`chunkPages` ends in
-`none` there).  BIT_PACKED level encoding is NOT among these: the reader never looks at the level-encoding
+`none` there).  Since repair F63 a data page WITHOUT values is not decoded at all: for the encoding and
+the codec clause the alternative to the error is "the page has no values and is stepped over, nothing is
+decoded" (`NothingDecoded`).  BIT_PACKED level encoding is NOT among these: the reader never looks at the level-encoding
 fields (it decodes RLE); such files end in an error only because the bytes do not decode.
 -/
 namespace Carquet.Proofs.ImplReads
@@ -21,6 +23,11 @@ def codecKnown (codec : Int) : Bool :=
 
 /-- the value encodings `carquet_read_data_page_v1` knows -/
 def encodingKnown (enc : Int) : Bool := decide (enc = 0 ∨ enc = 2 ∨ enc = 8)
+
+/-- the load fails, or (F63) it finds a data page without values, which it does not decode: either way
+no level and no value of the page reaches the column reader -/
+def NothingDecoded (r : Except Err PageLoaded) : Prop :=
+  (∃ e, r = .error e) ∨ ∃ p, r = .ok p ∧ p.page = ⟨[], [], []⟩
 
 theorem andThen_error {α β : Type} (l : Load α) (k : α → Load β) (e : Err) (h : l.result = .error e) :
     (l.andThen k).result = .error e := by
@@ -59,32 +66,36 @@ theorem takesView_encoding (fx : Fixes) (mode : Mode) (c : Col) (h : PageHdr) (h
     takesView fx mode c h = false := by
   simp [takesView, zeroCopyEligible, he]
 
-/-- a codec tag `decompress_page` does not know: no data page of the chunk is ever installed -/
+/-- a codec tag `decompress_page` does not know: no data page of the chunk with values is ever installed
+(F63: a page without values is not decompressed, it is stepped over) -/
 theorem finishDataPage_codec (fx : Fixes) (L : Libs) (verify : Bool) (mode : Mode) (b : Bytes) (c : Col) (st : PState)
     (hr : PageHdr × Nat) (hc : codecKnown c.cm.codec = false) :
-    ∃ e, (finishDataPage fx L verify mode b c st hr).result = .error e := by
+    (∃ e, (finishDataPage fx L verify mode b c st hr).result = .error e) ∨
+      (hr.1.word0 = 0 ∧ ∃ p, (finishDataPage fx L verify mode b c st hr).result = .ok p ∧ p.page = ⟨[], [], []⟩) := by
   have h0 : ¬ c.cm.codec = 0 := by
     unfold codecKnown at hc
     simp only [decide_eq_false_iff_not, not_or] at hc
     exact hc.1
   unfold finishDataPage
   split
-  · exact ⟨_, rfl⟩
+  · exact Or.inl ⟨_, rfl⟩
   split
-  · exact ⟨_, rfl⟩
+  · exact Or.inl ⟨_, rfl⟩
   split
-  · exact ⟨_, rfl⟩
+  · exact Or.inl ⟨_, rfl⟩
   rw [andThen_result]
   cases (Load.ofPair (bodyBytes mode b (st.dataStart + st.currentPage).toNat hr.2 hr.1.compressed.toNat)).result with
-  | error e => exact ⟨e, rfl⟩
+  | error e => exact Or.inl ⟨e, rfl⟩
   | ok body =>
     simp only
     split
-    · exact ⟨_, rfl⟩
+    · exact Or.inl ⟨_, rfl⟩
+    split
+    · rename_i h0'; exact Or.inr ⟨h0', _, rfl, rfl⟩
     rw [takesView_codec fx mode c hr.1 h0]
     simp only [Bool.false_eq_true, if_false]
     rw [pageData_unknown L c.cm.codec body _ hc]
-    exact ⟨_, rfl⟩
+    exact Or.inl ⟨_, rfl⟩
 
 theorem decodeValues_unknown (fx : Fixes) (c : Col) (dict : Option Dict) (enc : Int) (input : Bytes) (n : Nat)
     (h : encodingKnown enc = false) : decodeValues fx c dict enc input n = .error .invalidEncoding := by
@@ -109,37 +120,41 @@ theorem readDataPageV1_unknown (fx : Fixes) (c : Col) (dict : Option Dict) (pd :
       rw [decodeValues_unknown fx c dict enc r2 _ h]
       exact ⟨_, rfl⟩
 
-/-- a value encoding outside {PLAIN, PLAIN_DICTIONARY, RLE_DICTIONARY}: the page is not installed -/
+/-- a value encoding outside {PLAIN, PLAIN_DICTIONARY, RLE_DICTIONARY}: a page with values is not
+installed (F63: a page without values is not decoded, it is stepped over) -/
 theorem finishDataPage_encoding (fx : Fixes) (L : Libs) (verify : Bool) (mode : Mode) (b : Bytes) (c : Col) (st : PState)
     (hr : PageHdr × Nat) (he : encodingKnown hr.1.word4 = false) :
-    ∃ e, (finishDataPage fx L verify mode b c st hr).result = .error e := by
+    (∃ e, (finishDataPage fx L verify mode b c st hr).result = .error e) ∨
+      (hr.1.word0 = 0 ∧ ∃ p, (finishDataPage fx L verify mode b c st hr).result = .ok p ∧ p.page = ⟨[], [], []⟩) := by
   have h0 : ¬ hr.1.word4 = 0 := by
     unfold encodingKnown at he
     simp only [decide_eq_false_iff_not, not_or] at he
     exact he.1
   unfold finishDataPage
   split
-  · exact ⟨_, rfl⟩
+  · exact Or.inl ⟨_, rfl⟩
   split
-  · exact ⟨_, rfl⟩
+  · exact Or.inl ⟨_, rfl⟩
   split
-  · exact ⟨_, rfl⟩
+  · exact Or.inl ⟨_, rfl⟩
   rw [andThen_result]
   cases (Load.ofPair (bodyBytes mode b (st.dataStart + st.currentPage).toNat hr.2 hr.1.compressed.toNat)).result with
-  | error e => exact ⟨e, rfl⟩
+  | error e => exact Or.inl ⟨e, rfl⟩
   | ok body =>
     simp only
     split
-    · exact ⟨_, rfl⟩
+    · exact Or.inl ⟨_, rfl⟩
+    split
+    · rename_i h0'; exact Or.inr ⟨h0', _, rfl, rfl⟩
     rw [takesView_encoding fx mode c hr.1 h0]
     simp only [Bool.false_eq_true, if_false]
     cases pageData L c.cm.codec body hr.1.uncompressed.toNat with
-    | error e => exact ⟨e, rfl⟩
+    | error e => exact Or.inl ⟨e, rfl⟩
     | ok pd =>
       simp only
       obtain ⟨e, he'⟩ := readDataPageV1_unknown fx c st.dict pd hr.1.word0.toNat hr.1.word4 he
       rw [he']
-      exact ⟨e, rfl⟩
+      exact Or.inl ⟨e, rfl⟩
 
 /-! ### the dictionary page -/
 
@@ -202,6 +217,54 @@ theorem loadPage_of_finish_error (fx : Fixes) (L : Libs) (verify : Bool) (mode :
     | ok sh =>
       simp only
       exact hfin sh.1 sh.2
+
+/-- the data-page half decodes nothing ⇒ `load_next_page` decodes nothing -/
+theorem loadPage_of_finish_nothing (fx : Fixes) (L : Libs) (verify : Bool) (mode : Mode) (b : Bytes) (c : Col) (st : PState)
+    (hfin : ∀ st' hr, NothingDecoded (finishDataPage fx L verify mode b c st' hr).result) :
+    NothingDecoded (loadPage fx L verify mode b c st).result := by
+  unfold loadPage
+  rw [andThen_result]
+  cases (dictStep fx L verify mode b c st).result with
+  | error e => exact Or.inl ⟨e, rfl⟩
+  | ok st1 =>
+    simp only
+    unfold loadDataPage
+    rw [andThen_result]
+    cases (prepStage fx L verify mode b c st1).result with
+    | error e => exact Or.inl ⟨e, rfl⟩
+    | ok sh =>
+      simp only
+      exact hfin sh.1 sh.2
+
+/-- a codec tag `decompress_page` does not know: every `load_next_page` of the chunk fails or steps over
+a page without values; no level and no value of the chunk is ever decoded -/
+theorem loadPage_codec (fx : Fixes) (L : Libs) (verify : Bool) (mode : Mode) (b : Bytes) (c : Col) (st : PState)
+    (hc : codecKnown c.cm.codec = false) : NothingDecoded (loadPage fx L verify mode b c st).result :=
+  loadPage_of_finish_nothing fx L verify mode b c st (fun st' hr => by
+    rcases finishDataPage_codec fx L verify mode b c st' hr hc with h | ⟨_, h⟩
+    · exact Or.inl h
+    · exact Or.inr h)
+
+/-- … hence the page iteration of such a chunk hands the column reader pages without rows only, and
+ends in `none` (values outstanding, nothing delivered) or at the fuel bound -/
+theorem chunkPages_codec (fx : Fixes) (L : Libs) (verify : Bool) (mode : Mode) (b : Bytes) (c : Col)
+    (hc : codecKnown c.cm.codec = false) : ∀ (fuel : Nat) (st : PState),
+    ∀ x ∈ chunkPages fx L verify mode b c fuel st, x = none ∨ x = some ⟨[], [], []⟩ := by
+  intro fuel
+  induction fuel with
+  | zero => intro st x hx; simp [chunkPages] at hx; exact Or.inl hx
+  | succ fuel ih =>
+    intro st x hx
+    unfold chunkPages at hx
+    split at hx
+    · cases hx
+    · rcases loadPage_codec fx L verify mode b c st hc with ⟨e, he⟩ | ⟨p, hp, hpage⟩
+      · rw [he] at hx; simp at hx; exact Or.inl hx
+      · rw [hp] at hx
+        simp only [List.mem_cons] at hx
+        rcases hx with rfl | hx
+        · right; rw [hpage]
+        · exact ih _ x hx
 
 /-- a chunk whose metadata announce a `dictionary_page_offset`, for a BOOLEAN column: the first
 `load_next_page` fails -/
